@@ -13,6 +13,9 @@ Everything is a small total function on naturals / integers:
 * `recoverNonce p q c m`    textbook N-th root `(c·(1+N)^(-m) mod N)^(N⁻¹ mod φ(N)) mod N`
 * `decCRT p q c`, `openCRT p q c`   the Fermat-quotient / CRT formulas mirrored from
                             `SecretKey.Decrypt` / `SecretKey.Open`
+* `repLin`, `powModSk`, `invModSk`, `ctScalarSk`, `noiseSk`, `encSk`, `rerandSk`, `nonceScalarSk`,
+  `nonceMulSk`                the secret-key (CRT-accelerated) operations mirrored from
+                            `modular.OddPrimeSquareFactors` / `OddPrimeFactors` and `SecretKey.*`
 -/
 namespace BronVerif.Paillier
 
@@ -134,6 +137,70 @@ def openCRT (p q c : Nat) : Nat × Nat :=
   let rp := powMod (y % p) (invModD (q % (p - 1)) (p - 1)) p
   let rq := powMod (y % q) (invModD (p % (q - 1)) (q - 1)) q
   (m, crt p q rp rq)
+
+/-! ### secret-key (CRT-accelerated) arithmetic, mirrored from `modular.OddPrimeSquareFactors` /
+`modular.OddPrimeFactors` and the `SecretKey` methods that use them -/
+
+/-- `PaillierGroup.Representative` as the library computes it (both key kinds):
+`(m·N mod N²) + 1 mod N²` — no exponentiation -/
+def repLin (N m : Nat) : Nat := (m * N % (N * N) + 1) % (N * N)
+
+/-- `Shift` through `Representative` -/
+def shiftLin (N c d : Nat) : Nat := ctMul N c (repLin N d)
+
+/-- CRT exponentiation modulo `P·Q` as in `OddPrime(Square)Factors.ModExp`: the exponent is reduced
+modulo `phiP` (resp. `phiQ`) **only when the base is coprime to the prime** `p` (resp. `q`) — this
+`Select(base.Coprime(p), exp, ep)` is the guard the code has for non-units — and the two residues
+are recombined by Garner's formula. -/
+def powModCRTWith (P Q phiP phiQ p q b e : Nat) : Nat :=
+  let ep := if Nat.gcd b p = 1 then e % phiP else e
+  let eq := if Nat.gcd b q = 1 then e % phiQ else e
+  crt P Q (powMod b ep P) (powMod b eq Q)
+
+/-- the same without the guard (always reduce the exponent): what the guard protects against -/
+def powModCRTUnguarded (P Q phiP phiQ b e : Nat) : Nat :=
+  crt P Q (powMod b (e % phiP) P) (powMod b (e % phiQ) Q)
+
+/-- `OddPrimeSquareFactors.ModExp`: `b^e mod N²` via `p²`, `q²` with exponents mod `φ(p²)`, `φ(q²)` -/
+def powModSk (p q b e : Nat) : Nat :=
+  powModCRTWith (p * p) (q * q) ((p - 1) * p) ((q - 1) * q) p q b e
+
+/-- `OddPrimeFactors.ModExp`: `b^e mod N` via `p`, `q` with exponents mod `p−1`, `q−1` (nonce group) -/
+def powModSkN (p q b e : Nat) : Nat := powModCRTWith p q (p - 1) (q - 1) p q b e
+
+/-- `ModInv` of the CRT arithmetics: inverses modulo `P` and `Q`, recombined -/
+def invModCRT (P Q a : Nat) : Nat := crt P Q (invModD (a % P) P) (invModD (a % Q) Q)
+
+/-- `OddPrimeSquareFactors.ModInv` (modulo `N²`) -/
+def invModSk (p q a : Nat) : Nat := invModCRT (p * p) (q * q) a
+
+/-- `SecretKey.CiphertextScalarOp` = `ModExpI`: CRT power of `|k|`, CRT inverse for negative `k` -/
+def ctScalarSk (p q c : Nat) (k : Int) : Nat :=
+  let x := powModSk p q c k.natAbs
+  if k < 0 then invModSk p q x else x
+
+/-- `SecretKey.NonceScalarOp` (nonce group `Z*_N` with known factorisation) -/
+def nonceScalarSk (p q r : Nat) (k : Int) : Nat :=
+  let x := powModSkN p q r k.natAbs
+  if k < 0 then invModCRT p q x else x
+
+/-- `OddPrimeFactors.ModMul` (nonce product under the secret key): residues multiplied mod `p`, `q` -/
+def nonceMulSk (p q a b : Nat) : Nat := crt p q ((a % p) * (b % p) % p) ((a % q) * (b % q) % q)
+
+/-- `OddPrimeSquareFactors.ExpToN` (`SecretKey.IdentityNoise`): `r^N mod N²` as
+`r^(p·(N mod (p−1))) mod p²` and `r^(q·(N mod (q−1))) mod q²`, recombined -/
+def noiseSk (p q r : Nat) : Nat :=
+  let N := p * q
+  crt (p * p) (q * q) (powMod r (p * (N % (p - 1))) (p * p)) (powMod r (q * (N % (q - 1))) (q * q))
+
+/-- `SecretKey.EncryptWithNonce` = `Representative(m) · IdentityNoise(r)` in `Z*_{N²}` -/
+def encSk (p q m r : Nat) : Nat := ctMul (p * q) (repLin (p * q) m) (noiseSk p q r)
+
+/-- `PublicKey.EncryptWithNonce`: the same composition with the generic `r^N mod N²` -/
+def encPk (N m r : Nat) : Nat := ctMul N (repLin N m) (noise N r)
+
+/-- `SecretKey.ReRandomise` -/
+def rerandSk (p q c s : Nat) : Nat := ctMul (p * q) c (noiseSk p q s)
 
 /-! ### key well-formedness (what can be decided without a primality proof) -/
 /-- bit length -/
